@@ -53,6 +53,25 @@ CLAIMED = {
             "non-termination is reported as a violation.",
             "Same trusted base as C03. Recorded no-op transitions may be yielded or skipped.",
             "TLA+ definitional change semantics; implementation traces validated by TLC", "DESIGN.md §5 C14"),
+    "C08": ("model_checking",
+            "CivilArith.tla states the documented rules (years+months with Euclidean overflow and day clamping, then weeks "
+            "and days on the day count, then time units carried across midnight in 24-hour days; wrapping / checked / "
+            "saturating clock arithmetic) on day counts and exact BigInt nanoseconds, valid up to every Span unit limit; "
+            "every observed checked/saturating/wrapping add and sub of Date, DateTime and Time with spans, SignedDuration "
+            "and std Duration is recomputed by TLC, as are series items.",
+            "Trusted: TLC, harness encoders. Known finding D6 (Time::wrapping_add with spans beyond 2^63 ns) is listed in "
+            "KNOWN_FINDINGS.txt; it is not repairable without editing an existing test that asserts the wrapped value.",
+            "TLA+ arithmetic spec (BigInt) evaluated by TLC over implementation traces", "DESIGN.md §5 C08"),
+    "C10": ("model_checking",
+            "Round.tla defines the correct rounding declaratively (unique multiple within one increment on the side the mode "
+            "prescribes; nearest with the mode's tie rule) on exact integers; TLC model-checks uniqueness and equality with "
+            "the transcription of jiff's algorithm in small scope, and validates every observed rounding of Timestamp, Time, "
+            "DateTime, SignedDuration and Offset (all legal increments x 9 modes x boundary values, years <= 0, limits), the "
+            "increment legality tables and the out-of-range => Err rule. Zoned rounding is validated with the zoned driver "
+            "(C13).",
+            "Trusted: TLC, harness encoders; the harness supplies floor(x/inc) of the INPUT as a witness which the spec "
+            "verifies by multiplication.",
+            "TLA+ declarative rounding spec, model-checked in small scope, plus trace validation", "DESIGN.md §5 C10"),
 }
 
 PENDING_REASON = "check not built yet in this round (planned, see DESIGN.md §5); no claim is made"
